@@ -5,9 +5,10 @@ name, src, crate = sys.argv[1:4]
 needs = " ".join(sys.argv[4:])
 prop = name.split("-")[0]
 conf = None
+lookup = os.environ.get("CONFIRM_NAME", name)  # the name under which tools/confirm_seed.sh logged the confirmation
 for l in open("/tmp/wt/confirm.log"):
     j = json.loads(l)
-    if j.get("seed") == name:
+    if j.get("seed") == lookup:
         conf = j
 assert conf and "error" not in conf, conf
 sp, sf = map(int, conf["suite_plus_demo_with_change_pass_fail"].split())
